@@ -10,8 +10,17 @@ like the three child slots of the tree: the entries ending here are the node's o
 namespace Router.Tree
 open Router Router.Spec
 
+@[simp] theorem belowList_nil : belowList [] = [] := by rw [belowList]
+@[simp] theorem belowList_cons (c : Node) (cs : List Node) : belowList (c :: cs) = resid c ++ belowList cs := by
+  rw [belowList]
+@[simp] theorem belowOpt_none : belowOpt none = [] := by rw [belowOpt]
+@[simp] theorem belowOpt_some (c : Node) : belowOpt (some c) = resid c := by rw [belowOpt]
+theorem below_mk (k pre ms nf op pc st pa an) : below (.mk k pre ms nf op pc st pa an) =
+    (ownEntries ms nf).map (fun e => ([], e)) ++ belowList st ++ belowOpt pa ++ belowOpt an := by
+  rw [below]
+
 theorem resid_eq (c : Node) : resid c = prepend (headToks c.kind c.pre) (below c) := by
-  cases c; rfl
+  cases c; rw [resid]; rfl
 
 theorem headToks_static_ne_nil {pre : Str} (h : pre ≠ []) : ∃ c s, headToks .static pre = .lit c :: lits s ∧ pre = c :: s := by
   cases pre with
@@ -40,11 +49,11 @@ theorem ends_belowList {D : Nat} {here : List Tok} : ∀ (st : List Node), tiLis
     ends (belowList st) = [] := by
   intro st
   induction st with
-  | nil => intro _; rfl
+  | nil => intro _; simp [ends, deriv]
   | cons c cs ih =>
     intro h
     obtain ⟨hk, hp, _, hcs⟩ := tiList_cons h
-    simp only [belowList, ends_append, ends_resid_static c hk hp, ih hcs, List.append_nil]
+    simp only [belowList_cons, ends_append, ends_resid_static c hk hp, ih hcs, List.append_nil]
 
 theorem tiOpt_some {D : Nat} {here : List Tok} {k : Kind} {c : Node} (h : tiOpt D here k (some c) = true) :
     c.kind = k ∧ tiNode D here c = true := by
@@ -53,19 +62,20 @@ theorem tiOpt_some {D : Nat} {here : List Tok} {k : Kind} {c : Node} (h : tiOpt 
 theorem ends_belowOpt_param {D : Nat} {here : List Tok} (pa : Option Node) (h : tiOpt D here .param pa = true) :
     ends (belowOpt pa) = [] := by
   cases pa with
-  | none => rfl
-  | some c => exact ends_resid_param c (tiOpt_some h).1
+  | none => simp [ends]
+  | some c => rw [belowOpt_some]; exact ends_resid_param c (tiOpt_some h).1
 
 theorem ends_belowOpt_any {D : Nat} {here : List Tok} (an : Option Node) (h : tiOpt D here .any an = true) :
     ends (belowOpt an) = [] := by
   cases an with
-  | none => rfl
-  | some c => exact ends_resid_any c (tiOpt_some h).1
+  | none => simp [ends]
+  | some c => rw [belowOpt_some]; exact ends_resid_any c (tiOpt_some h).1
 
 /-- components of the invariant of a node -/
 structure TIParts (D : Nat) (above : List Tok) (k : Kind) (pre : Str) (ms : List (Str × RouteMethod))
     (nf : Option RouteMethod) (pc : Nat) (st : List Node) (pa an : Option Node) : Prop where
   depth : arity (above ++ headToks k pre) ≤ D
+  alive : (!ms.isEmpty || nf.isSome || !st.isEmpty || pa.isSome || an.isSome) = true
   kindParam : k = .param → pre = [':']
   kindAny : k = .any → pre = ['*'] ∧ st = [] ∧ pa = none ∧ an = none ∧ pc = arity (above ++ headToks k pre)
   noNf : NoNfKey ms
@@ -79,8 +89,8 @@ structure TIParts (D : Nat) (above : List Tok) (k : Kind) (pre : Str) (ms : List
 theorem tiNode_parts {D : Nat} {above : List Tok} {k : Kind} {pre : Str} {ms nf op pc st pa an}
     (h : tiNode D above (.mk k pre ms nf op pc st pa an) = true) : TIParts D above k pre ms nf pc st pa an := by
   simp only [tiNode, Bool.and_eq_true, decide_eq_true_eq, List.all_eq_true, bne_iff_ne, ne_eq, beq_iff_eq] at h
-  obtain ⟨⟨⟨⟨⟨⟨⟨hd, hk⟩, hms⟩, hnf⟩, hdis⟩, hkids⟩, hp⟩, ha⟩ := h
-  refine ⟨hd, ?_, ?_, ?_, ?_, ?_, hdis, hkids, hp, ha⟩
+  obtain ⟨⟨⟨⟨⟨⟨⟨⟨hd, hal⟩, hk⟩, hms⟩, hnf⟩, hdis⟩, hkids⟩, hp⟩, ha⟩ := h
+  refine ⟨hd, by simpa using hal, ?_, ?_, ?_, ?_, ?_, hdis, hkids, hp, ha⟩
   · intro hkp; subst hkp; simpa using hk
   · intro hka; subst hka
     simp only [Bool.and_eq_true, beq_iff_eq, List.isEmpty_iff, Option.isNone_iff_eq_none] at hk
@@ -94,7 +104,7 @@ theorem ends_below {D : Nat} {above : List Tok} {k pre ms nf op pc st pa an}
     (h : tiNode D above (.mk k pre ms nf op pc st pa an) = true) :
     ends (below (.mk k pre ms nf op pc st pa an)) = ownEntries ms nf := by
   have p := tiNode_parts h
-  simp only [below, ends_append, ends_own, ends_belowList st p.kids, ends_belowOpt_param pa p.kidP,
+  simp only [below_mk, ends_append, ends_own, ends_belowList st p.kids, ends_belowOpt_param pa p.kidP,
     ends_belowOpt_any an p.kidA, List.append_nil]
 
 /-! ### derivatives -/
@@ -118,22 +128,22 @@ theorem deriv_param_belowList {D : Nat} {here : List Tok} : ∀ (st : List Node)
     deriv .param (belowList st) = [] := by
   intro st
   induction st with
-  | nil => intro _; rfl
+  | nil => intro _; simp [ends, deriv]
   | cons c cs ih =>
     intro h
     obtain ⟨hk, hp, _, hcs⟩ := tiList_cons h
-    simp only [belowList, deriv_append, ih hcs, List.append_nil]
+    simp only [belowList_cons, deriv_append, ih hcs, List.append_nil]
     exact deriv_resid_static_ne _ c hk hp (by intros; simp)
 
 theorem deriv_any_belowList {D : Nat} {here : List Tok} : ∀ (st : List Node), tiList D here st = true →
     deriv .any (belowList st) = [] := by
   intro st
   induction st with
-  | nil => intro _; rfl
+  | nil => intro _; simp [ends, deriv]
   | cons c cs ih =>
     intro h
     obtain ⟨hk, hp, _, hcs⟩ := tiList_cons h
-    simp only [belowList, deriv_append, ih hcs, List.append_nil]
+    simp only [belowList_cons, deriv_append, ih hcs, List.append_nil]
     exact deriv_resid_static_ne _ c hk hp (by intros; simp)
 
 /-- the static child the Find loop would pick for byte `c` -/
@@ -145,11 +155,11 @@ theorem deriv_lit_belowList_none {D : Nat} {here : List Tok} (c : Char) : ∀ (s
     tiList D here st = true → (∀ n ∈ st, n.label ≠ some c) → deriv (.lit c) (belowList st) = [] := by
   intro st
   induction st with
-  | nil => intros; rfl
+  | nil => intros; simp [ends, deriv]
   | cons n ns ih =>
     intro h hno
     obtain ⟨hk, hp, _, hcs⟩ := tiList_cons h
-    simp only [belowList, deriv_append, ih hcs (fun x hx => hno x (List.mem_cons_of_mem _ hx)), List.append_nil]
+    simp only [belowList_cons, deriv_append, ih hcs (fun x hx => hno x (List.mem_cons_of_mem _ hx)), List.append_nil]
     apply deriv_resid_static_ne _ n hk hp
     intro ch hch heq
     simp only [Tok.lit.injEq] at heq
@@ -164,12 +174,12 @@ theorem deriv_lit_belowList {D : Nat} {here : List Tok} (c : Char) : ∀ (st : L
       | none => [] := by
   intro st
   induction st with
-  | nil => intros; rfl
+  | nil => intros; simp [deriv, pick]
   | cons n ns ih =>
     intro h hd
     obtain ⟨hk, hp, _, hcs⟩ := tiList_cons h
     simp only [labelsDistinct, Bool.and_eq_true, List.all_eq_true, bne_iff_ne, ne_eq] at hd
-    simp only [belowList, deriv_append, pick]
+    simp only [belowList_cons, deriv_append, pick]
     by_cases hl : n.label = some c
     · simp only [hl, if_true]
       obtain ⟨ch, s, _, hpre⟩ := headToks_static_ne_nil hp
@@ -192,10 +202,10 @@ theorem deriv_lit_belowList {D : Nat} {here : List Tok} (c : Char) : ∀ (st : L
 theorem deriv_belowOpt_ne (t : Tok) (k : Kind) {D : Nat} {here : List Tok} (o : Option Node)
     (h : tiOpt D here k o = true) (hk : k ≠ .static) (ht : headToks k [] ≠ [t]) : deriv t (belowOpt o) = [] := by
   cases o with
-  | none => rfl
+  | none => simp [deriv]
   | some c =>
     obtain ⟨hkc, _⟩ := tiOpt_some h
-    rw [belowOpt, resid_eq, hkc]
+    rw [belowOpt_some, resid_eq, hkc]
     cases k with
     | static => exact absurd rfl hk
     | param =>
@@ -207,14 +217,19 @@ theorem deriv_belowOpt_ne (t : Tok) (k : Kind) {D : Nat} {here : List Tok} (o : 
       apply deriv_prepend_cons_ne
       intro heq; exact ht (by simp [headToks, heq])
 
+/-- residuals below an optional child -/
+def belowOf : Option Node → R
+  | some c => below c
+  | none => []
+
 theorem deriv_belowOpt_same (k : Kind) {D : Nat} {here : List Tok} (o : Option Node)
     (h : tiOpt D here k o = true) (t : Tok) (ht : ∀ pre, headToks k pre = [t]) :
-    deriv t (belowOpt o) = match o with | some c => below c | none => [] := by
+    deriv t (belowOpt o) = belowOf o := by
   cases o with
-  | none => rfl
+  | none => simp [deriv, belowOf]
   | some c =>
     obtain ⟨hkc, _⟩ := tiOpt_some h
-    rw [belowOpt, resid_eq, hkc, ht]
+    rw [belowOpt_some, resid_eq, hkc, ht]
     rw [deriv_prepend_cons_same]
     exact prepend_nil _
 
@@ -226,7 +241,7 @@ theorem deriv_lit_below {D : Nat} {above : List Tok} {k pre ms nf op pc st pa an
       | some n => residFrom n.pre.tail n
       | none => [] := by
   have p := tiNode_parts h
-  simp only [below, deriv_append, deriv_own, List.nil_append]
+  simp only [below_mk, deriv_append, deriv_own, List.nil_append]
   rw [deriv_lit_belowList c st p.kids p.distinct,
     deriv_belowOpt_ne (.lit c) .param pa p.kidP (by simp) (by simp [headToks]),
     deriv_belowOpt_ne (.lit c) .any an p.kidA (by simp) (by simp [headToks])]
@@ -234,20 +249,67 @@ theorem deriv_lit_below {D : Nat} {above : List Tok} {k pre ms nf op pc st pa an
 
 theorem deriv_param_below {D : Nat} {above : List Tok} {k pre ms nf op pc st pa an}
     (h : tiNode D above (.mk k pre ms nf op pc st pa an) = true) :
-    deriv .param (below (.mk k pre ms nf op pc st pa an)) = match pa with | some c => below c | none => [] := by
+    deriv .param (below (.mk k pre ms nf op pc st pa an)) = belowOf pa := by
   have p := tiNode_parts h
-  simp only [below, deriv_append, deriv_own, List.nil_append]
+  simp only [below_mk, deriv_append, deriv_own, List.nil_append]
   rw [deriv_param_belowList st p.kids, deriv_belowOpt_same .param pa p.kidP .param (fun _ => rfl),
     deriv_belowOpt_ne .param .any an p.kidA (by simp) (by simp [headToks])]
   simp
 
 theorem deriv_any_below {D : Nat} {above : List Tok} {k pre ms nf op pc st pa an}
     (h : tiNode D above (.mk k pre ms nf op pc st pa an) = true) :
-    deriv .any (below (.mk k pre ms nf op pc st pa an)) = match an with | some c => below c | none => [] := by
+    deriv .any (below (.mk k pre ms nf op pc st pa an)) = belowOf an := by
   have p := tiNode_parts h
-  simp only [below, deriv_append, deriv_own, List.nil_append]
+  simp only [below_mk, deriv_append, deriv_own, List.nil_append]
   rw [deriv_any_belowList st p.kids, deriv_belowOpt_ne .any .param pa p.kidP (by simp) (by simp [headToks]),
     deriv_belowOpt_same .any an p.kidA .any (fun _ => rfl)]
   simp
+
+/-! ### every well-formed subtree holds at least one record -/
+
+theorem prepend_ne_nil {ts : List Tok} {r : R} (h : r ≠ []) : prepend ts r ≠ [] := by
+  unfold prepend
+  cases r with
+  | nil => exact absurd rfl h
+  | cons _ _ => simp
+
+mutual
+theorem below_ne_nil (D : Nat) (above : List Tok) : (n : Node) → tiNode D above n = true → below n ≠ []
+  | .mk k pre ms nf op pc st pa an, h => by
+    have p := tiNode_parts h
+    rw [below_mk]
+    have hal := p.alive
+    simp only [Bool.or_eq_true, Bool.not_eq_true', List.isEmpty_eq_false_iff, Option.isSome_iff_ne_none] at hal
+    intro hnil
+    simp only [List.append_eq_nil_iff, List.map_eq_nil_iff] at hnil
+    obtain ⟨⟨⟨hown, hl⟩, hpa⟩, han⟩ := hnil
+    rcases hal with (((hms | hnf) | hst) | hpn) | han'
+    · cases ms with
+      | nil => exact hms rfl
+      | cons _ _ => simp [ownEntries] at hown
+    · cases nf with
+      | none => exact hnf rfl
+      | some _ => simp [ownEntries] at hown
+    · exact belowList_ne_nil D _ st p.kids hst hl
+    · cases pa with
+      | none => exact hpn rfl
+      | some c =>
+        rw [belowOpt_some, resid_eq] at hpa
+        exact prepend_ne_nil (below_ne_nil D _ c (tiOpt_some p.kidP).2) hpa
+    · cases an with
+      | none => exact han' rfl
+      | some c =>
+        rw [belowOpt_some, resid_eq] at han
+        exact prepend_ne_nil (below_ne_nil D _ c (tiOpt_some p.kidA).2) han
+theorem belowList_ne_nil (D : Nat) (here : List Tok) : (st : List Node) → tiList D here st = true → st ≠ [] →
+    belowList st ≠ []
+  | [], _, h => absurd rfl h
+  | c :: cs, h, _ => by
+    obtain ⟨_, _, hc, _⟩ := tiList_cons h
+    rw [belowList_cons, resid_eq]
+    intro hnil
+    simp only [List.append_eq_nil_iff] at hnil
+    exact prepend_ne_nil (below_ne_nil D here c hc) hnil.1
+end
 
 end Router.Tree
